@@ -396,7 +396,9 @@ def step (_ : St) (op : List String) (impl : Option (List String)) : St × Strin
         let rowOk := rows.all (fun r => r.all (fun x => 0.0 ≤ x) && Float.abs (r.foldl (· + ·) 0.0 - 1.0) < 1e-9)
         let verdict := verdictOf [(st.length == size, "hmm_sample_defined"), (st.all (· < n), "hmm_sample_defined"),
           (size == 0 || (eqU.map Float.toBits == eqT.map Float.toBits), "hmm_first_state_from_equilibrium"),
-          (Float.abs (eqT.foldl (· + ·) 0.0 - 1.0) < 1e-9 && rowOk, "hmm_rows_are_probabilities")]
+          (Float.abs (eqT.foldl (· + ·) 0.0 - 1.0) < 1e-9 && rowOk, "hmm_rows_are_probabilities"),
+          -- the law: each state on the step of its own recorded draw
+          (ds.length != st.length || hmmSampleLawOk eqU rows ds st, "hmm_sample_law")]
         let out := if ds.length != size || dt.length != size then "draw-mismatch" else
           match hmmSample eqU rows size ds with
           | .ok l => join [showNats l, showFloats pij, showFloats eqU, showFloats eqT, " ".intercalate dt]
@@ -496,7 +498,12 @@ def step (_ : St) (op : List String) (impl : Option (List String)) : St × Strin
   | "chi2" :: kind :: _ :: ws =>
     match floats? ws, it.mapM nat? with
     | some w, some counts =>
-      let probs := if kind == "pick1c" || kind == "shuffle" || kind == "uint" then w.map (fun _ => 1.0) else w
+      let probs :=
+        if kind == "pick1c" || kind == "shuffle" || kind == "uint" then w.map (fun _ => 1.0)
+        -- the pair (first, second element) of a sample with replacement of size 2: independent picks
+        else if kind == "pairs" then (w.flatMap (fun _ => w)).map (fun _ => 1.0)
+        else if kind == "pairsw" then w.flatMap (fun a => w.map (fun b => a * b))
+        else w
       ((), "stat", if chi2Ok counts probs then "ok" else "FAIL:chi2_" ++ kind)
     | _, _ => ((), "stat", "FAIL:chi2_" ++ kind)
   | "chi2d" :: fam :: _ =>
@@ -511,7 +518,21 @@ def step (_ : St) (op : List String) (impl : Option (List String)) : St × Strin
     | some r0, some r1, some c0, some counts =>
       ((), "stat", if chi2Ok counts (hyperProbs r0 r1 c0 (min r0 c0)) then "ok" else "FAIL:chi2_rcont2")
     | _, _, _, _ => ((), "stat", "FAIL:chi2_rcont2")
-  | ["repro", _] => ((), "1 1 1", if it == ["1", "1", "1"] then "ok" else "FAIL:reproducible")
+  | ["chi2rc3", _, _, a0, _, b0, b1, b2] =>
+    -- joint law of two cells of a 2x3 / 3x2 table: multivariate hypergeometric
+    match nat? a0, nat? b0, nat? b1, nat? b2, it.mapM nat? with
+    | some a0, some b0, some b1, some b2, some counts =>
+      let tot := (binom (b0 + b1 + b2) a0).toFloat
+      let probs := (List.range (b0 + 1)).flatMap (fun x0 => (List.range (b1 + 1)).map (fun x1 =>
+        if x0 + x1 > a0 then 0.0 else (binom b0 x0 * binom b1 x1 * binom b2 (a0 - x0 - x1)).toFloat / tot))
+      ((), "stat", if chi2Ok counts probs then "ok" else "FAIL:chi2_rcont2_joint")
+    | _, _, _, _, _ => ((), "stat", "FAIL:chi2_rcont2_joint")
+  | ["repro", _] =>
+    -- answer: <two runs after setSeed(seed) agree> <the first uniform is the one of std::mt19937(seed): informative only,
+    -- the property does not name the generator> <setSeed(seed + 1) gives another stream>
+    match it with
+    | [same, first, differs] => ((), "1 " ++ first ++ " 1", if same == "1" && differs == "1" then "ok" else "FAIL:reproducible")
+    | _ => ((), "parse", "FAIL:reproducible")
   | ["repro1", routine, _, _, _] =>
     -- two histories that differ before `setSeed(seed)`: the observations after it and the final generator
     -- state must agree (`reproducible`); the clause names the routine that keeps state of its own
